@@ -44,6 +44,9 @@ def run(tier, seed):
     cover = reps[0].get("shuffle_index_tuples_covered", 0)
     if not viol and cover < (600 if tier == "quick" else 715):
         raise vc.EngineError(f"vacuous: only {cover} of 720 shuffle index tuples drawn by the generator states used")
+    from checks import hrun_common as hc
+    lrep, ltot, lviol = hc.libstate_part(PID, d)
+    viol += lviol
     n = vc.triage(PID, viol)
     cov = dict(tot)
     cov["states"] = tot["evaluations"]
@@ -58,6 +61,8 @@ def run(tier, seed):
                    "square / torus compared with each LP's answers alone; free-running two-thread comparison; "
                    "states = (topology, source) pairs, transitions = random queries; non-trivial = query repeated after rollback"
                    % (reps[0].get("max_grid", 0), reps[0].get("max_regions", 0), reps[0].get("generator_states", 0), cover))
+    cov["library_hidden_state"] = {"evaluations": ltot["evaluations"], "hidden_state_accesses": lrep.get("hidden_state_accesses")}
+    cov["rule"] += "; " + hc.LIBSTATE_RULE
     vc.write_evidence(PID, tier, "model_checking", cov,
                       ["neighbour existence for DIRECTION_RANDOM is defined per the property text (valid fixed direction / other region / link)",
                        "the two-thread pass is free-running (a sample, not an enumeration) and only supplements the sequential memo oracle"],
@@ -68,7 +73,11 @@ def run(tier, seed):
 def replay(path):
     r = json.load(open(path))
     d = vc.fresh_dir(PID + "_replay")
-    rep = vc.run_seqx(build(d), r["args"])
+    if r.get("harness") == "s_libstate":
+        from checks import hrun_common as hc
+        rep = vc.run_seqx(hc.build_libstate(d), r["args"])
+    else:
+        rep = vc.run_seqx(build(d), r["args"])
     hit = [v for v in rep["violations"] if v["signature"] == r["signature"]]
     print(json.dumps(hit[:1] or "not reproduced", indent=1))
     return 1 if hit else 0
